@@ -1,1 +1,103 @@
-//! Reference models (filled in per engine).
+//! Small executable reference models used as oracles.  Deliberately naive and
+//! written from the property statements, not from the code under test.
+
+use std::collections::BTreeMap;
+
+#[inline]
+pub fn base_code(b: u8) -> Option<u64> {
+    match b {
+        b'A' | b'a' => Some(0),
+        b'C' | b'c' => Some(1),
+        b'G' | b'g' => Some(2),
+        b'T' | b't' | b'U' | b'u' => Some(3),
+        _ => None,
+    }
+}
+
+/// Canonical code of one window, if all its bytes are nucleotides.
+pub fn canonical_window(w: &[u8]) -> Option<u64> {
+    let k = w.len();
+    let mut f = 0u64;
+    let mut r = 0u64;
+    for (i, &b) in w.iter().enumerate() {
+        let c = base_code(b)?;
+        f = (f << 2) | c;
+        r |= (3 - c) << (2 * i);
+    }
+    let _ = k;
+    Some(f.min(r))
+}
+
+/// Canonical k-mers of a sequence, in order (one per valid window).
+pub fn canonical_kmers(seq: &[u8], k: usize) -> Vec<u64> {
+    if k == 0 || seq.len() < k {
+        return Vec::new();
+    }
+    (0..=seq.len() - k)
+        .filter_map(|i| canonical_window(&seq[i..i + k]))
+        .collect()
+}
+
+/// Multiset of canonical k-mers over all records.
+pub fn count_kmers<'a>(seqs: impl Iterator<Item = &'a [u8]>, k: usize) -> BTreeMap<u64, u64> {
+    let mut m = BTreeMap::new();
+    for s in seqs {
+        for c in canonical_kmers(s, k) {
+            *m.entry(c).or_insert(0u64) += 1;
+        }
+    }
+    m
+}
+
+pub fn kmer_text(code: u64, k: usize) -> String {
+    (0..k)
+        .map(|i| match (code >> (2 * (k - 1 - i))) & 3 {
+            0 => 'A',
+            1 => 'C',
+            2 => 'G',
+            _ => 'T',
+        })
+        .collect()
+}
+
+/// Chaos-game points of a nucleotide string in a square of side `s`, computed
+/// with exact dyadic arithmetic: point i = num_i / 2^(i+1) (per coordinate,
+/// in units of s).  Returns (x_num, y_num, shift) per point while the numerator
+/// fits in u128, which covers the first 120 points; callers compare through f64
+/// only where the value is exactly representable.
+pub fn cgr_corner(b: u8) -> Option<(u64, u64)> {
+    match b {
+        b'A' | b'a' => Some((0, 0)),
+        b'C' | b'c' => Some((0, 1)),
+        b'G' | b'g' => Some((1, 1)),
+        b'T' | b't' | b'U' | b'u' => Some((1, 0)),
+        _ => None,
+    }
+}
+
+/// f64 value of (num / 2^shift) * s, exact whenever the result is exactly
+/// representable (num < 2^53 and s a small integer keep it so).
+pub fn dyadic_to_f64(num: u128, shift: u32, s: f64) -> f64 {
+    // (num * s) / 2^shift with both steps exact if num*s < 2^53
+    (num as f64) * s / 2f64.powi(shift as i32)
+}
+
+/// Exact chaos-game numerators: point_i = (xn_i, yn_i) / 2^(i+1) * S, with the
+/// centre as point_0 = 1/2.  Valid for the first `limit` points (u128).
+pub fn cgr_points_exact(seq: &[u8], limit: usize) -> Option<Vec<(u128, u128, u32)>> {
+    let mut out = Vec::new();
+    // marker = xn / 2^sh ; start 1/2
+    let (mut xn, mut yn, mut sh) = (1u128, 1u128, 1u32);
+    for (i, &b) in seq.iter().enumerate() {
+        if i >= limit {
+            break;
+        }
+        let (cx, cy) = cgr_corner(b)?;
+        // new = (corner + marker)/2 = (corner*2^sh + n) / 2^(sh+1)
+        xn += (cx as u128) << sh;
+        yn += (cy as u128) << sh;
+        sh += 1;
+        out.push((xn, yn, sh));
+    }
+    Some(out)
+}
